@@ -17,6 +17,9 @@ inductive Val where
   | t (text : Bytes)          -- a domain name in presentation form
   | ss (strs : List Bytes)
   | ts (types : List Nat)     -- a type bitmap as the list of type codes
+  | ns (names : List Bytes)   -- a list of domain names in presentation form
+  | kv (items : List (Nat × Bytes))          -- EDNS0 options / SVCB parameters: code and value octets
+  | ap (items : List (Nat × Bool × Bytes))   -- APL items: plen length, negation, address (4 or 16 octets)
 deriving Repr, DecidableEq
 
 /-- what a field holds when the unpacker stopped before reaching it -/
@@ -28,6 +31,10 @@ def zeroVal : CStep → Option Val
   | .name => some (.t [])
   | .txt => some (.ss [])
   | .nsec => some (.ts [])
+  | .gateway _ _ => some (.b [])
+  | .names => some (.ns [])
+  | .tlvs _ => some (.kv [])
+  | .apl => some (.ap [])
   | .other => none
 
 def packTxtStrings : List Bytes → Option Bytes
@@ -35,8 +42,114 @@ def packTxtStrings : List Bytes → Option Bytes
   | s :: rest =>
     if s.length ≤ 255 then (packTxtStrings rest).map (fun r => UInt8.ofNat s.length :: s ++ r) else none
 
+def packNames : List Bytes → Option Bytes
+  | [] => some []
+  | t :: rest => match packName t, packNames rest with
+    | .ok w, some r => some (w ++ r)
+    | _, _ => none
+
+def unpackNames : (fuel : Nat) → Bytes → Option (List Bytes)
+  | 0, _ => none
+  | _ + 1, [] => some []
+  | f + 1, rd => match unpackName rd 0 with
+    | .ok (text, off) => if off = 0 then none else (unpackNames f (rd.drop off)).map (fun r => text :: r)
+    | _ => none
+
+/-! #### type-length-value lists: `packDataOpt` / `unpackDataOpt`, `packDataSVCB` / `unpackDataSVCB` -/
+
+def packTlvs : List (Nat × Bytes) → Option Bytes
+  | [] => some []
+  | (c, d) :: rest =>
+    if c < 65536 ∧ d.length < 65536 then (packTlvs rest).map (fun r => beBytes 2 c ++ (beBytes 2 d.length ++ (d ++ r))) else none
+
+/-- `sort.Slice(pairs, key <)` (the order of equal keys does not matter: they are rejected right after) -/
+def insertKV (x : Nat × Bytes) : List (Nat × Bytes) → List (Nat × Bytes)
+  | [] => [x]
+  | y :: ys => if x.1 < y.1 then x :: y :: ys else y :: insertKV x ys
+
+def sortKV : List (Nat × Bytes) → List (Nat × Bytes)
+  | [] => []
+  | x :: xs => insertKV x (sortKV xs)
+
+/-- packDataSVCB's walk over the sorted pairs: a key equal to the previous one (`svcb_RESERVED` = 65535 to begin with)
+    is "repeated" -/
+def svcbKeysOK (prev : Nat) : List (Nat × Bytes) → Bool
+  | [] => true
+  | (c, _) :: rest => c != prev && svcbKeysOK c rest
+
+/-- unpackDataSVCB: key 65535 has no value type ("bad SVCB key"); keys must be strictly increasing -/
+def svcbKeyBad (prev : Option Nat) (c : Nat) : Bool :=
+  c == 65535 || (match prev with | some p => decide (c ≤ p) | none => false)
+
+def unpackTlvs (sorted : Bool) : (fuel : Nat) → (prev : Option Nat) → Bytes → Option (List (Nat × Bytes))
+  | 0, _, _ => none
+  | f + 1, prev, rd =>
+    if rd.isEmpty then some []
+    else if 4 ≤ rd.length then
+      let c := beVal (rd.take 2)
+      let n := beVal ((rd.drop 2).take 2)
+      let body := rd.drop 4
+      if n ≤ body.length then
+        if sorted && svcbKeyBad prev c then none
+        else (unpackTlvs sorted f (some c) (body.drop n)).map (fun r => (c, body.take n) :: r)
+      else none
+    else none
+
+/-! #### APL items: `packDataAplPrefix` / `unpackDataAplPrefix` -/
+
+/-- `IP.Mask(CIDRMask(p, 8*len))` -/
+def maskBytes : Nat → Bytes → Bytes
+  | _, [] => []
+  | p, b :: bs => (if 8 ≤ p then b else b &&& (UInt8.ofNat (256 - 2 ^ (8 - p)))) :: maskBytes (p - 8) bs
+
+def trimZeros (bs : Bytes) : Bytes := (bs.reverse.dropWhile (· == 0)).reverse
+
+def packAplItem : Nat × Bool × Bytes → Option Bytes
+  | (plen, neg, ip) =>
+    if (ip.length = 4 ∨ ip.length = 16) ∧ plen ≤ 8 * ip.length then
+      let addr := trimZeros ((maskBytes plen ip).take ((plen + 7) / 8))
+      some (beBytes 2 (if ip.length = 4 then 1 else 2) ++
+        (UInt8.ofNat plen :: UInt8.ofNat ((if neg then 128 else 0) + addr.length) :: addr))
+    else none
+
+def packApl : List (Nat × Bool × Bytes) → Option Bytes
+  | [] => some []
+  | it :: rest => match packAplItem it, packApl rest with
+    | some a, some r => some (a ++ r)
+    | _, _ => none
+
+def unpackAplItem (rd : Bytes) : Option ((Nat × Bool × Bytes) × Bytes) :=
+  if 4 ≤ rd.length then
+    let fam := beVal (rd.take 2)
+    let plen := (rd.getD 2 0).toNat
+    let nlen := (rd.getD 3 0).toNat
+    let body := rd.drop 4
+    let full := if fam = 1 then 4 else 16
+    let afdlen := nlen % 128
+    if (fam = 1 ∨ fam = 2) ∧ plen ≤ 8 * full ∧ afdlen ≤ full ∧ afdlen ≤ body.length then
+      let addr := body.take afdlen
+      -- "Address MUST NOT contain trailing zero bytes"
+      if afdlen > 0 ∧ addr.getD (afdlen - 1) 0 = 0 then none
+      else some ((plen, decide (128 ≤ nlen), addr ++ List.replicate (full - afdlen) 0), body.drop afdlen)
+    else none
+  else none
+
+def unpackApl : (fuel : Nat) → Bytes → Option (List (Nat × Bool × Bytes))
+  | 0, _ => none
+  | f + 1, rd =>
+    if rd.isEmpty then some []
+    else match unpackAplItem rd with
+      | some (it, rest) => (unpackApl f rest).map (fun r => it :: r)
+      | none => none
+
+/-- the gateway type that selects the shape of an IPSECKEY / AMTRELAY gateway -/
+def gatewayType (vals : List Val) (idx : Nat) (mask7 : Bool) : Nat :=
+  match vals.getD idx (.n 0) with
+  | .n v => if mask7 then v % 128 else v
+  | _ => 0
+
 /-- one step of a generated `pack` body -/
-def packStep : CStep → Val → Option Bytes
+def packStep (vals : List Val) : CStep → Val → Option Bytes
   | .uint w, .n v => if v < 256 ^ w then some (beBytes w v) else none
   | .a, .b bs => if bs.length = 4 ∨ bs.length = 0 then some bs else none
   | .aaaa, .b bs => if bs.length = 16 ∨ bs.length = 0 then some bs else none
@@ -46,16 +159,32 @@ def packStep : CStep → Val → Option Bytes
   | .blobSized _, .b bs => some bs
   | .txt, .ss strs => packTxtStrings strs
   | .nsec, .ts types => packNsec types
-  | _, _ => none
-
-def packPlan : List CStep → List Val → Option Bytes
-  | [], [] => some []
-  | .early :: steps, vals => packPlan steps vals
-  | s :: steps, v :: vals =>
-    match packStep s v, packPlan steps vals with
-    | some a, some r => some (a ++ r)
+  | .names, .ns texts => packNames texts
+  | .tlvs false, .kv items => packTlvs items
+  | .tlvs true, .kv items => if svcbKeysOK 65535 (sortKV items) then packTlvs (sortKV items) else none
+  | .apl, .ap items => packApl items
+  | .gateway i m, v =>
+    match gatewayType vals i m, v with
+    | 1, .b bs => if bs.length = 4 ∨ bs.length = 0 then some bs else none
+    | 2, .b bs => if bs.length = 16 ∨ bs.length = 0 then some bs else none
+    | 3, .t text => match packName text with | .ok w => some w | _ => none
+    | 1, _ => none
+    | 2, _ => none
+    | 3, _ => none
+    | _, .b [] => some []
     | _, _ => none
   | _, _ => none
+
+def packPlanAcc : List Val → List CStep → List Val → Option Bytes
+  | _, [], [] => some []
+  | acc, .early :: steps, vals => packPlanAcc acc steps vals
+  | acc, s :: steps, v :: vals =>
+    match packStep acc s v, packPlanAcc (acc ++ [v]) steps vals with
+    | some a, some r => some (a ++ r)
+    | _, _ => none
+  | _, _, _ => none
+
+def packPlan (steps : List CStep) (vals : List Val) : Option Bytes := packPlanAcc [] steps vals
 
 def unpackTxtStrings : (fuel : Nat) → Bytes → Option (List Bytes)
   | 0, _ => none
@@ -78,6 +207,15 @@ def unpackStep (vals : List Val) : CStep → Bytes → Option (Val × Bytes)
     | _ => none
   | .txt, rd => (unpackTxtStrings (rd.length + 1) rd).map (fun ss => (.ss ss, []))
   | .nsec, rd => (unpackNsec rd).map (fun ts => (.ts ts, []))
+  | .names, rd => (unpackNames (rd.length + 1) rd).map (fun ns => (.ns ns, []))
+  | .tlvs sorted, rd => (unpackTlvs sorted (rd.length + 1) none rd).map (fun kv => (.kv kv, []))
+  | .apl, rd => (unpackApl (rd.length + 1) rd).map (fun ap => (.ap ap, []))
+  | .gateway i m, rd =>
+    match gatewayType vals i m with
+    | 1 => if 4 ≤ rd.length then some (.b (rd.take 4), rd.drop 4) else none
+    | 2 => if 16 ≤ rd.length then some (.b (rd.take 16), rd.drop 16) else none
+    | 3 => (match unpackName rd 0 with | .ok (text, off) => some (.t text, rd.drop off) | _ => none)
+    | _ => some (.b [], rd)
   | _, _ => none
 
 /-- a generated `unpack` body: `acc` the fields decoded so far (in order) -/
